@@ -14,6 +14,8 @@ PROPS = {
     "C03": {"families": ["support"], "title": "no phantom coordinates"},
 }
 
+MAX_CONFIRM = 12  # counterexamples replayed (and reported) per run; further ones are only counted
+
 ASSUMPTIONS = [
     "inputs satisfy the representation invariant (pos[0]=0, monotone, crd in range and strictly increasing per segment)",
     "float values are exact rationals (grid lemma: vals = solver-placed indicator cells with weights 1..m_T); rounding is outside the claim",
@@ -31,6 +33,11 @@ def confirm(rec, families):
     out = {"ir": None, "real": None, "asan": None, "confirmed": False, "where": []}
     if dec is None:
         return out
+    spec_asg = None
+    if rec.get("spec"):
+        from tensora.expression import parse_assignment
+
+        spec_asg = parse_assignment(rec["spec"]).unwrap()
     # JSON round trip turned Fractions into strings already
     ir = replay.concrete_ir_run(comp, ["evaluate"], dec)
     out["ir"] = {k: v for k, v in ir.items() if k != "output"}
@@ -39,7 +46,7 @@ def confirm(rec, families):
         out["where"].append("ir-machine")
         out["ir"]["problems"] = [ir["violation"]["label"]]
     else:
-        probs = judge.judge_output(comp, dec, ir["output"], families)
+        probs = judge.judge_output(comp, dec, ir["output"], families, spec_asg)
         out["ir"]["problems"] = probs
         if probs:
             out["confirmed"] = True
@@ -52,7 +59,7 @@ def confirm(rec, families):
         if real["status"] == "ok":
             o = real["output"]
             o["vals_length"] = len(o["vals"])
-            probs = judge.judge_output(comp, dec, o, families)
+            probs = judge.judge_output(comp, dec, o, families, spec_asg)
             out["real"]["problems"] = probs
             if probs:
                 out["confirmed"] = True
@@ -105,6 +112,7 @@ def run(pid: str, tier: str, families=None, extra_requests=None, worker=None, va
     generated = set()
     samples = []
     n_viol = 0
+    unreplayed = []
     stmts = reached = 0
     checked = {}
     grew_requests = set()
@@ -132,6 +140,9 @@ def run(pid: str, tier: str, families=None, extra_requests=None, worker=None, va
             budget.append({"request": key, "dimvec": r["dimvec"], "why": r.get("error")})
         elif st == "violation":
             n_viol += 1
+            if n_viol > MAX_CONFIRM:
+                unreplayed.append({"request": key, "dimvec": r["dimvec"], "kind": r["violation"]["kind"]})
+                continue
             conf = confirm_fn(r, families)
             record = {"name": key, "request": key, "assignment": r["request"]["assignment"],
                       "kind": r["violation"]["kind"], "program": r.get("program") or r.get("mode"),
@@ -185,6 +196,7 @@ def run(pid: str, tier: str, families=None, extra_requests=None, worker=None, va
         "functions_encoded": functions or ["tensora.generate.generate_module_tensora (output IR executed symbolically)",
                                            "tensora.ir.peephole (as part of the pipeline)"],
         "violations_found_by_solver": n_viol,
+        "solver_counterexamples_not_replayed": unreplayed[:50],
         "known_findings_met": [k["id"] for k in rep.known],
     }
     if extra is not None:
